@@ -303,6 +303,73 @@ fn check_types(yaml: Option<usize>, seq: &[Acc]) -> Result<u64, String> {
     }
 }
 
+/// Two typed handles of different types obtained while the property is absent; the first one
+/// initialises it, the stale second one is then asked to supply a default: the property keeps
+/// the first type and value.
+fn stale_handle(t1: Ty, t2: Ty, via: u8) -> Result<u64, String> {
+    quiet_catch(move || -> Result<u64, String> {
+        let mut sim = Sim::new(());
+        sim.node("a", M);
+        let m = sim.get(&"a".into()).unwrap();
+        fn init<T: des::net::module::PropType + Clone + std::fmt::Debug + Default>(m: &ModuleRef, v: T, via: u8) -> Result<(), String> {
+            let p = m.prop::<T>("x").map_err(|e| e.to_string())?;
+            match via {
+                0 => drop(p.or(v)),
+                1 => drop(p.or_else(|| v)),
+                _ => drop(p.or_default()),
+            }
+            Ok(())
+        }
+        // both handles exist before anything is written
+        macro_rules! with_ty {
+            ($t:expr, $f:ident) => {
+                match $t {
+                    Ty::I64 => $f!(i64, -7i64),
+                    Ty::U8 => $f!(u8, 9u8),
+                    Ty::Str => $f!(String, String::from("w")),
+                    Ty::Bool => $f!(bool, true),
+                    Ty::F64 => $f!(f64, 2.25f64),
+                }
+            };
+        }
+        // handle of the second type, obtained now, used later
+        macro_rules! second {
+            ($T:ty, $v:expr) => {{
+                let stale = m.prop::<$T>("x").map_err(|e| e.to_string())?;
+                macro_rules! first {
+                    ($U:ty, $w:expr) => {{
+                        init::<$U>(&m, $w, 0)?;
+                    }};
+                }
+                with_ty!(t1, first);
+                match via {
+                    0 => drop(stale.or($v)),
+                    1 => drop(stale.or_else(|| $v)),
+                    _ => drop(stale.or_default()),
+                }
+            }};
+        }
+        with_ty!(t2, second);
+        let r1 = read_as(&m, t1);
+        let r2 = read_as(&m, t2);
+        let exp1 = match t1 {
+            Ty::I64 => "-7".to_string(),
+            Ty::U8 => "9".to_string(),
+            Ty::Str => "\"w\"".to_string(),
+            Ty::Bool => "true".to_string(),
+            Ty::F64 => "2.25".to_string(),
+        };
+        if r1 != Ok(Some(exp1.clone())) {
+            return Err(format!("property first initialised as {t1:?} = {exp1}; after a stale {t2:?} handle supplied a default it reads as {t1:?}: {r1:?}"));
+        }
+        if t1 != t2 && r2.is_ok() {
+            return Err(format!("property first initialised as {t1:?}; after a stale {t2:?} handle supplied a default it can be read as {t2:?}: {r2:?}"));
+        }
+        Ok(vcheck::fp(&format!("{r1:?}{r2:?}")))
+    })
+    .map_err(|m| format!("panicked: {m}"))?
+}
+
 fn acc_alphabet() -> Vec<Acc> {
     TYS.iter().map(|t| Acc::Read(*t)).chain(TYS.iter().map(|t| Acc::Write(*t))).chain((0..YAMLS.len()).map(Acc::Include)).collect()
 }
@@ -329,7 +396,7 @@ impl Property for C17 {
         ]
     }
     fn required_features(&self, _tier: Tier) -> Vec<&'static str> {
-        vec!["prefix_sharing_siblings", "non_ascii_sibling", "wildcard_and_specific_overlap", "two_entries_one_module", "include_after_creation", "include_split", "type_sequences"]
+        vec!["prefix_sharing_siblings", "non_ascii_sibling", "wildcard_and_specific_overlap", "two_entries_one_module", "include_after_creation", "include_split", "type_sequences", "stale_handle_of_another_type"]
     }
     fn explore(&self, ctx: &mut Ctx) {
         let keys = candidate_keys();
@@ -410,6 +477,21 @@ impl Property for C17 {
                 }
             }
         }
+        // a stale handle of another type supplies a default
+        if ctx.is_first_shard() {
+            for t1 in TYS {
+                for t2 in TYS {
+                    for via in 0..3u8 {
+                        ctx.out.evaluations += 1;
+                        ctx.hit("stale_handle_of_another_type");
+                        match stale_handle(t1, t2, via) {
+                            Ok(o) => ctx.outcome(o),
+                            Err(d) => ctx.violation("violation", || json!({"kind": "stale_handle", "t1": format!("{t1:?}"), "t2": format!("{t2:?}"), "via": via}), d),
+                        }
+                    }
+                }
+            }
+        }
         // type rule
         let alpha = acc_alphabet();
         let maxl = ctx.tier.pick(3, 4);
@@ -444,6 +526,10 @@ impl Property for C17 {
         }
     }
     fn replay(&self, case: &Value) -> Result<(), String> {
+        if case["kind"] == "stale_handle" {
+            let ty = |s: &str| *TYS.iter().find(|t| format!("{t:?}") == s).unwrap();
+            return stale_handle(ty(case["t1"].as_str().unwrap()), ty(case["t2"].as_str().unwrap()), case["via"].as_u64().unwrap() as u8).map(|_| ());
+        }
         if case["kind"] == "types" {
             let yaml = case["yaml"].as_u64().map(|y| y as usize);
             let seq: Vec<Acc> = case["accesses"]
